@@ -93,7 +93,7 @@ func flagSet(name string) bool {
 func runProp(spec *PropSpec, tier, mutant string, noMut bool) (code int) {
 	start := time.Now()
 	c := &Ctx{Prop: spec.ID, Tier: tier, Rules: map[string]*RuleStat{}, FuncsSeen: map[string]bool{}, Extra: map[string]interface{}{}}
-	c.Explanation = spec.Explanation + round8Explanations[spec.ID] + round9Explanations[spec.ID] + round10Explanations[spec.ID] + round11bExplanations[spec.ID] + round12Explanations[spec.ID] + round13Explanations[spec.ID] + round14Explanations[spec.ID] + round15Explanations[spec.ID] + round16Explanations[spec.ID] + round17Explanations[spec.ID] + round18Explanations[spec.ID] + round19Explanations[spec.ID] + genericExplanation
+	c.Explanation = spec.Explanation + round8Explanations[spec.ID] + round9Explanations[spec.ID] + round10Explanations[spec.ID] + round11bExplanations[spec.ID] + round12Explanations[spec.ID] + round13Explanations[spec.ID] + round14Explanations[spec.ID] + round15Explanations[spec.ID] + round16Explanations[spec.ID] + round17Explanations[spec.ID] + round18Explanations[spec.ID] + round19Explanations[spec.ID] + round20Explanations[spec.ID] + genericExplanation
 	var runErr error
 	var mut *MutantSummary
 	defer func() {
@@ -188,6 +188,7 @@ func runProp(spec *PropSpec, tier, mutant string, noMut bool) (code int) {
 		runRound16(c, spec)
 		runRound17(c, spec)
 		runRound18(c, spec)
+		runRound19(c, spec)
 		if c.Whole && spec.Thorough != nil {
 			spec.Thorough(c)
 		}
